@@ -14,7 +14,10 @@ CONSTANTS
   Grain = "call"
   Fixed = TRUE
   MaxMoves = 2
+  MaxPrep = 2
+  MaxThrows = 1
+  ThrowFixed = TRUE
   MaxOwner = 2
-INVARIANTS TypeOK Exclusive BlockAlive BookkeepingTruthful LargeEnough SizeRoundTrip HeapFallbackFreedOnce TrailerTruthful MtSafeNeverShares ReuseBlock ExtraCtorDtorOnce
+INVARIANTS TypeOK Exclusive BlockAlive BookkeepingTruthful LargeEnough SizeRoundTrip HeapFallbackFreedOnce TrailerTruthful MtSafeNeverShares BusyMeansInUse ReuseBlock ExtraCtorDtorOnce
 PROPERTIES ExtraUsableAtCreation WarmNoAlloc CompleteNoAlloc MoveNoAlloc
 CHECK_DEADLOCK FALSE
